@@ -731,7 +731,11 @@ BD_Shape<T>::is_disjoint_from(const BD_Shape& y) const {
     }
   }
 
-  return false;
+  // The test above is only sufficient: the contradiction may need
+  // constraints of both shapes along a longer cycle.
+  BD_Shape z(*this);
+  z.intersection_assign(y);
+  return z.is_empty();
 }
 
 template <typename T>
